@@ -666,6 +666,24 @@ class Interp:
                     continue
             if not broke and st.orelse:
                 self.exec_block(st.orelse, env, module)
+        elif t is ast.While:
+            # a loop on a concrete condition (counters, list lengths): executed exactly; a condition on a CasADi value or an
+            # unmodelled library value is Unsupported through truth(); the bound only guards the analyser
+            broke = False
+            n_iter = 0
+            while self.truth(self.ev(st.test, env, module), st.test):
+                n_iter += 1
+                if n_iter > 100000:
+                    raise Unsupported("while loop exceeds 100000 iterations", st)
+                try:
+                    self.exec_block(st.body, env, module)
+                except _Break:
+                    broke = True
+                    break
+                except _Continue:
+                    continue
+            if not broke and st.orelse:
+                self.exec_block(st.orelse, env, module)
         elif t is ast.AugAssign:
             cur = self.ev(self._load_of(st.target), env, module)
             if isinstance(cur, list) and isinstance(st.op, ast.Add):
